@@ -493,29 +493,56 @@ mp::internal::SignalRepeater::SignalRepeater(const char *s) : in_(0), out_(0) {
 }
 #endif
 
+#ifdef AMPL_MP_VERIF
+// Verification hook (off unless AMPL_MP_VERIF is defined): a test can set
+// verif_signal_point to be called after each individual store of the
+// SignalHandler constructor (ids 1-6), SetHandler (7, 8) and destructor
+// (9-12), e.g. to raise a signal at exactly that point.
+void (*verif_signal_point)(int) = 0;
+# define MP_VERIF_POINT(id) \
+  do { \
+    if (mp::internal::verif_signal_point) \
+      mp::internal::verif_signal_point(id); \
+  } while (0)
+#else
+# define MP_VERIF_POINT(id)
+#endif
+
 SignalHandler::SignalHandler(BasicSolver &s)
   : solver_(s),
     message_(fmt::format("\n<BREAK> ({})\n",
                          "solver")),  //s.name())),
     repeater_(std::getenv("SW_sigpipe")) {
   solver_.set_interrupter(this);
+  MP_VERIF_POINT(1);
   signal_message_ptr_ = message_.c_str();
+  MP_VERIF_POINT(2);
   signal_message_size_ = static_cast<unsigned>(message_.size());
+  MP_VERIF_POINT(3);
   std::signal(SIGINT, HandleSigInt);
+  MP_VERIF_POINT(4);
   std::signal(SIGTERM, HandleSigInt);
+  MP_VERIF_POINT(5);
   stop_ = 0;
+  MP_VERIF_POINT(6);
 }
 
 SignalHandler::~SignalHandler() {
   solver_.set_interrupter(0);
+  MP_VERIF_POINT(9);
   stop_ = 1;
+  MP_VERIF_POINT(10);
   handler_ = 0;
+  MP_VERIF_POINT(11);
   signal_message_size_ = 0;
+  MP_VERIF_POINT(12);
 }
 
 void SignalHandler::SetHandler(InterruptHandler handler, void *data) {
   handler_ = handler;
+  MP_VERIF_POINT(7);
   data_ = data;
+  MP_VERIF_POINT(8);
 }
 
 void SignalHandler::HandleSigInt(int sig) {
